@@ -131,7 +131,7 @@ def build_impl(log=None):
             for src in srcs:
                 txt = open(src).read()
                 wraps += re.findall(r'\bWRAPV?\w*\((\w+)', txt) + re.findall(r'\b__wrap_(\w+)\s*\(', txt)
-            wl = ['-Wl,--wrap=' + w for w in sorted(set(wraps))]
+            wl = ['-Wl,--wrap=' + w for w in sorted(set(wraps)) if w.startswith('__')]
             sh(['gcc', '-O1', '-g', '-w', '-I' + os.path.join(d, 'include'), '-I' + os.path.join(ROOT, 'harness')] + srcs +
                [os.path.join(d, 'libmpir.a'), '-lm', '-lpthread'] + wl + ['-o', os.path.join(d, 'drv')], timeout=600)
         finally:
